@@ -15,9 +15,9 @@ import (
 // C14: each case is run N times in this process; all results must be identical. The signature of the first run is
 // returned so that the driver can also compare results across fresh processes.
 type detCase struct {
-	Kind  string     `json:"kind"`
-	Src   string     `json:"src"`
-	Data  []tpair    `json:"data"`
+	Kind  string  `json:"kind"`
+	Src   string  `json:"src"`
+	Data  []tpair `json:"data"`
 	GData []struct {
 		K string `json:"k"`
 		V goval  `json:"v"`
